@@ -187,11 +187,9 @@ impl NormalizingHasher {
         }
     }
 
-    pub(crate) fn done(mut self) -> Box<dyn DynDigest + Send> {
-        if self.text_mode && self.last_was_cr {
-            self.hasher.update(b"\n")
-        }
-
+    pub(crate) fn done(self) -> Box<dyn DynDigest + Send> {
+        // A trailing CR was already hashed as-is by `hash_buf`. A lone CR is not a line
+        // ending, so nothing is appended here (same result as `NormalizedReader`).
         self.hasher
     }
 
